@@ -97,6 +97,18 @@ def walk(n, path, out, skip_types=True):
         walk(x, path + [k], out)
 
 
+def maybe_float(n):
+    """the expression may evaluate to a float as far as its syntax tells: it holds a float literal or
+    something whose type is not evident (a name, a call, an access)"""
+    if isinstance(n, (list, tuple)):
+        if n and n[0] in ("id", "call", "facc", "tacc", "at", "reduce", "post"):
+            return True
+        if len(n) == 2 and n[0] == "c" and isinstance(n[1], (list, tuple)) and n[1] and n[1][0] == "f":
+            return True
+        return any(maybe_float(x) for x in n)
+    return False
+
+
 def bare_std(n, under_facc):
     """`std` used other than as the base of a field access (the model's std holds `len` only)"""
     if isinstance(n, (list, tuple)):
@@ -187,7 +199,12 @@ def mutate(rnd, prog):
             if not bs:
                 return None
             e = get(p, rnd.choice(bs))
-            e[1] = rnd.choice(ASSIGN if e[1] in ASSIGN else BINOPS)
+            new_op = rnd.choice(ASSIGN if e[1] in ASSIGN else BINOPS)
+            if new_op in ("**", "**=") and (maybe_float(e[2]) or maybe_float(e[3])):
+                # float ** float is outside the program model (its pow is a stub): `**` only where no operand
+                # can be a float
+                return None
+            e[1] = new_op
         elif kind == "return":
             rs = [s[1] for s in sites if s[0] == "return"]
             if not rs:
